@@ -65,6 +65,22 @@ def run(ctx) -> None:
     ctx.floor("slot_tests", 2)
 
 
+def placeholder_fields(info) -> dict:
+    """{'func','instance','name','lock'} -> attribute names, by the order of __init__'s parameters."""
+    init = info.methods["__init__"]
+    pn = init.param_names()
+    roles = dict(zip(pn[1:5], ("func", "instance", "name", "lock")))
+    out = {}
+    for s_ in own_nodes(init.node):
+        if isinstance(s_, (ast.Assign, ast.AnnAssign)):
+            tgt = s_.targets[0] if isinstance(s_, ast.Assign) else s_.target
+            if isinstance(tgt, ast.Attribute) and isinstance(s_.value, ast.Name) and s_.value.id in roles:
+                out[roles[s_.value.id]] = tgt.attr
+    if set(out) != {"func", "instance", "name", "lock"}:
+        raise AnalysisError(f"placeholder __init__ no longer stores (getter, instance, name, lock): {out} (anchor moved)")
+    return out
+
+
 def _is_slot_test(n: Node, cfg=None) -> bool:
     """branch on `<slot read> is self` (or `self is <slot read>`)."""
     if n.kind != "branch" or not isinstance(n.ast, ast.Compare) or len(n.ast.ops) != 1:
@@ -93,18 +109,19 @@ def _held_edge(n: Node) -> str:
 
 
 def r12_1(ctx, info) -> None:
+    F = placeholder_fields(info)
     u = info.methods["_await_impl"]
     cfg = cfg_of(u)
     main = [n for n in cfg.nodes if not n.tag]
     getters = [n for n in main if n.kind == "await" and any(
         a[0] == "libcoro" and a[1].endswith("._get_attribute") for a in ctx.vals.expr(u, n.info.get("value"), n))]
-    enters = [n for n in main if n.kind == "enter" and norm(n.info.get("cm")) == "self._lock"]
+    enters = [n for n in main if n.kind == "enter" and norm(n.info.get("cm")) == f"self.{F['lock']}"]
     tests = [n for n in main if _is_slot_test(n, cfg)]
     ctx.count("slot_tests", len(tests))
     ctx.check(len(getters) >= 1, "R12.1", u, "_await_impl", "the computation is started from _await_impl")
     ctx.check(len(enters) >= 1, "R12.1", u, "_await_impl", "the lock is taken around the computation")
     for g in getters:
-        in_lock = any(k == "with" and norm(a.context_expr) == "self._lock" for (k, a) in g.regions)
+        in_lock = any(k == "with" and norm(a.context_expr) == f"self.{F['lock']}" for (k, a) in g.regions)
         ctx.check(in_lock, "R12.1", u, g, "the getter runs while the lock is held", node=g)
         for e in enters:
             path = find_path(e, lambda x: x is g, avoid=None,
@@ -147,6 +164,7 @@ def r12_1(ctx, info) -> None:
 
 
 def r12_2(ctx, info) -> None:
+    F = placeholder_fields(info)
     u = info.methods["_get_attribute"]
     cfg = cfg_of(u)
     main = [n for n in cfg.nodes if not n.tag]
@@ -160,7 +178,7 @@ def r12_2(ctx, info) -> None:
         return
     a = awaits[0]
     v = ctx.vals.expr(u, a.info.get("value"), a)
-    ctx.check(any(x[0] == "userawait" for x in v) and "self._func" in norm(a.info.get("value")), "R12.2", u, a,
+    ctx.check(any(x[0] == "userawait" for x in v) and norm(a.info.get("value")) == f"self.{F['func']}(self.{F['instance']})", "R12.2", u, a,
               "the awaited call is the user's getter applied to the instance", node=a)
     for s in stores:
         # after the await, with no suspension between
@@ -175,7 +193,7 @@ def r12_2(ctx, info) -> None:
                   "no suspension point between the getter's completion and the publish", node=s)
         val = s.info.get("value")
         t = [t for t in s.info["targets"] if isinstance(t, ast.Subscript)][0]
-        key_ok = norm(t.value) == "self._instance.__dict__" and norm(t.slice) == "self._name"
+        key_ok = norm(t.value) == f"self.{F['instance']}.__dict__" and norm(t.slice) == f"self.{F['name']}"
         ctx.check(key_ok, "R12.2", u, s, "the value is published in instance.__dict__ under the property's name", node=s)
         wrapped = isinstance(val, ast.Call) and norm(val.func) == "AwaitableValue" and len(val.args) == 1 \
             and isinstance(val.args[0], ast.Name)
@@ -269,13 +287,9 @@ def r12_4(ctx, info) -> None:
                   "a new lock object is created per placeholder (per instance and computation)")
     else:
         ctx.fail("R12.4", g, "__get__", "first access stores a placeholder in instance.__dict__[name]")
-    init = info.methods["__init__"]
-    assigns = {t.attr: norm(s.value) for s in own_nodes(init.node) if isinstance(s, ast.Assign)
-               for t in s.targets if isinstance(t, ast.Attribute)}
-    pn = init.param_names()
-    ctx.check(assigns.get("_instance") == pn[2] and assigns.get("_name") == pn[3] and assigns.get("_func") == pn[1]
-              and assigns.get("_lock") == pn[4], "R12.4", init, "__init__",
-              "the placeholder keeps exactly the (getter, instance, name, lock) it was created with", witness=str(assigns))
+    F = placeholder_fields(info)
+    ctx.ok("R12.4", info.methods["__init__"], "the placeholder keeps exactly the (getter, instance, name, lock) it was "
+           "created with", fields=F)
 
 
 def r12_5(ctx, info) -> None:
@@ -283,13 +297,14 @@ def r12_5(ctx, info) -> None:
     cfg = cfg_of(u)
     handlers = [n for n in cfg.nodes if n.kind == "handler" and "KeyError" in norm(n.info.get("type"))]
     ctx.check(bool(handlers), "R12.5", u, "_instance_value", "a deleted slot is detected (KeyError on the instance dict)")
-    reads = [n for n in cfg.nodes if n.kind == "sub" and norm(n.ast) == "self._instance.__dict__[self._name]"]
+    F = placeholder_fields(info)
+    reads = [n for n in cfg.nodes if n.kind == "sub" and norm(n.ast) == f"self.{F['instance']}.__dict__[self.{F['name']}]"]
     ctx.check(bool(reads), "R12.5", u, "_instance_value", "the slot is read from instance.__dict__[name]")
     for h in handlers:
         body = reachable([h], edge_ok=lambda a, lab, b: lab not in ("e", "p"))
         rets = [n for n in body if n.kind == "return"]
         ok = rets and all(isinstance(r.info.get("value"), ast.Call) and norm(r.info["value"].func) == "getattr"
-                          and [norm(a) for a in r.info["value"].args] == ["self._instance", "self._name"] for r in rets)
+                          and [norm(a) for a in r.info["value"].args] == [f"self.{F['instance']}", f"self.{F['name']}"] for r in rets)
         ctx.check(bool(ok), "R12.5", u, rets[0] if rets else h,
                   "after deletion the access restarts through the descriptor: getattr(instance, name)", node=h)
 
